@@ -216,12 +216,32 @@ impl Drop for ScriptedServer {
     }
 }
 
-/// A loopback port that is closed right now (bind to 0, remember, drop).
+/// A port on `ip` for a server the harness is about to start, never handed out twice to live users of this
+/// process and never taken from the kernel's ephemeral range (so neither another shard's `bind(0)` nor an
+/// outgoing connection's source port can grab it between this call and the server's own bind). Every process
+/// draws from its own slice of 10000..32000 (by pid), each candidate is probed by binding it.
+pub fn free_port(ip: &str) -> u16 {
+    use std::sync::atomic::{AtomicU32, Ordering as O};
+    static NEXT: AtomicU32 = AtomicU32::new(0);
+    const SLICE: u32 = 1000;
+    const SLICES: u32 = 22;
+    let base = 10_000 + (std::process::id() % SLICES) * SLICE;
+    for _ in 0..(SLICE * 4) {
+        let k = NEXT.fetch_add(1, O::Relaxed);
+        // after one pass through the own slice, spill over the whole range (offset by the own base)
+        let port = if k < SLICE { base + k } else { 10_000 + (base - 10_000 + k) % (SLICE * SLICES) } as u16;
+        let target = if ip.contains(':') { format!("[{}]:{}", ip.trim_matches(|c| c == '[' || c == ']'), port) } else { format!("{}:{}", ip, port) };
+        if let Ok(l) = TcpListener::bind(&target) {
+            drop(l);
+            return port;
+        }
+    }
+    panic!("no free port for {} (harness error)", ip);
+}
+
+/// A loopback port that is closed right now and stays unused by this harness.
 pub fn closed_port() -> SocketAddr {
-    let l = TcpListener::bind("127.0.0.1:0").unwrap();
-    let a = l.local_addr().unwrap();
-    drop(l);
-    a
+    format!("127.0.0.1:{}", free_port("127.0.0.1")).parse().unwrap()
 }
 
 /// Read until EOF or deadline; returns (bytes, saw_eof).
